@@ -4,7 +4,7 @@ CONSTANTS
   SHAPES <- T_SHAPES
   RANKS = {1, 2, 4}
   EPSEXP = {10, 6, 3}
-  GUESS = {"none", "fresh", "big", "reused"}
+  GUESS = {"none", "fresh", "big", "reused", "zero"}
   SEEDS = {1, 2}
   BACKENDS = {"py"}
   PREC = {"none", "c", "r"}
